@@ -111,6 +111,7 @@ Definition n_prof := name4 112 114 111 102.
 (* stage 4 *)
 Definition n_hvcC := name4 104 118 99 67.
 Definition n_subs := name4 115 117 98 115.
+Definition n_esds := name4 101 115 100 115.
 
 (* ---------------------------------------------------------------- box header (box.go / boxsr.go) *)
 Record hdr := mkHdr { h_name : list N; h_size : N; h_len : N }.
@@ -139,6 +140,15 @@ Definition rsvT := list (list N).
 Record tsample := mkTs { ts_dur : N; ts_size : N; ts_flags : N; ts_cto : N }.
 (* sidx reference *)
 Record sref := mkSref { sr_type : N; sr_size : N; sr_dur : N; sr_sap : N; sr_saptype : N; sr_delta : N }.
+
+(* esds descriptors (mp4/descriptors.go).  nb is the number of bytes of the size field as read (a ghost value: Go keeps
+   sizeFieldSizeMinus1 = byte(nb - 1)); the DecSpecificInfo / SLConfig pointers and the OtherDescriptors slice of
+   Go are one list here, in stream order (EncodeSW writes them back in that order). *)
+Inductive desc :=
+| DDcd (nb ot st buf maxbr avgbr : N) (children : list desc) (unknown : list N)   (* DecoderConfigDescriptor *)
+| DDsi (nb : N) (dc : list N)                                                     (* DecSpecificInfoDescriptor *)
+| DSlc (nb cv : N) (more : list N)                                                (* SLConfigDescriptor *)
+| DRaw (tag nb : N) (data : list N).                                              (* RawDescriptor *)
 
 Inductive leaf :=
 | LFtyp (name : list N) (data : list N)                 (* ftyp / styp: data []byte *)
@@ -203,7 +213,12 @@ Inductive leaf :=
 | LHvcC (space : N) (tier : bool) (idc compat constr level mss par chroma bdl bdc afr cfr ntl tin : N)
         (arrays : list (N * list (list N)))
 (* Entries (SampleDelta, SubSamples (SubsampleSize, SubsamplePriority, Discardable, CodecSpecificParameters)) *)
-| LSubs (version flags : N) (entries : list (N * list (N * N * N * N))).
+| LSubs (version flags : N) (entries : list (N * list (N * N * N * N)))
+(* EsdsBox: Version Flags, ESDescriptor (size field bytes, EsID FlagsAndPriority DependsOnEsID URLString OCResID,
+   DecConfigDescriptor, SLConfig/Other descriptors, UnknownData); canon (ghost, computed by the decoder): every size
+   field was written in the encoder's form and no UnknownData was kept *)
+| LEsds (version flags nb esid fl dep : N) (url : list N) (ocr : N) (dcd : desc) (children : list desc)
+        (unknown : list N) (canon : bool).
 
 Definition leaf_name (l : leaf) : list N :=
   match l with
@@ -223,6 +238,7 @@ Definition leaf_name (l : leaf) : list N :=
   | LCslg _ _ _ _ _ _ _ => n_cslg
   | LSenc _ _ _ _ _ => n_senc | LEmsg _ _ _ _ _ _ _ _ _ => n_emsg | LElng _ _ _ _ => n_elng | LKind _ _ _ _ => n_kind
   | LHvcC _ _ _ _ _ _ _ _ _ _ _ _ _ _ _ _ => n_hvcC | LSubs _ _ _ => n_subs
+  | LEsds _ _ _ _ _ _ _ _ _ _ _ _ => n_esds
   end.
 
 Definition unity_matrix : list N :=
@@ -799,6 +815,245 @@ Definition dec_subs (h : hdr) : parser (leaf * rsvT) :=
   fun bs => (pdo es <- rd_many (S (length bs)) cnt (rd_subs_entry (subs_w (vf_version vf))) ;;
              pret (LSubs (vf_version vf) (vf_flags vf) es, [])) bs.
 
+(* ---------------------------------------------------------------- esds (mp4/esds.go, mp4/descriptors.go) *)
+(* The FixedSliceReader accumulates its error: after a read beyond the slice every later read returns nothing and
+   DecodeEsdsSR ends with sr.AccError(), so ONE short read makes the whole box fail (DHard / Err).  A descriptor
+   that fails for another reason (DSoft: maxNrBytes < 2, tag 3, size beyond maxNrBytes, nested failure) makes its
+   parent take the rest of its bytes as UnknownData. *)
+Definition int64 (x : N) : Z :=
+  if x <? 9223372036854775808 then Z.of_N x else (Z.of_N x - 18446744073709551616)%Z.
+Definition sfs_of (nb : N) : N := (nb - 1) mod 256.          (* sizeFieldSizeMinus1 is a byte *)
+
+(* readSizeSize: 7 bits per byte, the top bit says that another byte follows; the value accumulates in a uint64.
+   Returns (number of bytes, value, the bytes) *)
+Fixpoint sz_loop (bs : list N) (acc : N) : res ((N * N * list N) * list N) :=
+  match bs with
+  | [] => Err
+  | b :: t =>
+      let acc' := u64 (acc * 128 + b mod 128) in
+      if 128 <=? b then
+        match sz_loop t acc' with
+        | Ok ((nb, sz, raw), r) => Ok ((nb + 1, sz, b :: raw), r)
+        | Err => Err | Panic => Panic | OutOfFuel => OutOfFuel
+        end
+      else Ok ((1, acc', [b]), t)
+  end.
+(* writeDescriptorSize(sw, size, sizeFieldSizeMinus1): for pos := sfs; pos >= 0; pos-- *)
+Fixpoint wr_size (size : N) (pos : nat) : list N :=
+  match pos with
+  | O => [size mod 128]
+  | S p => ((size / 2 ^ (7 * N.of_nat pos)) mod 128 + 128) :: wr_size size p
+  end.
+
+Inductive dres := DOk (d : desc) (rsv : rsvT) (rest : list N) | DSoft | DHard | DFuel.
+Inductive lres := LDone (ds : list desc) (rsv : rsvT) (rest : list N)
+                | LUnknown (ds : list desc) (rsv : rsvT) (u : list N) (rest : list N) | LTooFar | LHard | LFuel.
+
+(* the `for { nrBytesLeft := int(size) - (currPos - dataStart) ... }` loop of DecodeESDescriptor and
+   DecodeDecoderConfigDescriptor; dd = DecodeDescriptor, used = currPos - dataStart *)
+Fixpoint dec_loop (dd : Z -> list N -> dres) (k : nat) (size : Z) (used : N) (bs : list N) : lres :=
+  match k with
+  | O => LFuel
+  | S k' =>
+      let left := (size - Z.of_N used)%Z in
+      if (left =? 0)%Z then LDone [] [] bs
+      else if (left <? 0)%Z then LTooFar
+      else match dd left bs with
+           | DOk d rsv r =>
+               match dec_loop dd k' size (used + (lenN bs - lenN r)) r with
+               | LDone ds rs r' => LDone (d :: ds) (rsv ++ rs) r'
+               | LUnknown ds rs u r' => LUnknown (d :: ds) (rsv ++ rs) u r'
+               | LTooFar => LTooFar | LHard => LHard | LFuel => LFuel
+               end
+           | DSoft => match rdB (Z.to_N left) bs with     (* sr.SetPos(currPos); UnknownData = sr.ReadBytes(nrBytesLeft) *)
+                      | Ok (u, r) => LUnknown [] [] u r
+                      | _ => LHard
+                      end
+           | DHard => LHard
+           | DFuel => LFuel
+           end
+  end.
+
+Definition rd_dcd_fields : parser (N * N * N * N) :=
+  pdo ot <- rd 1 ;; pdo x <- rd 4 ;; pdo maxbr <- rd 4 ;; pdo avgbr <- rd 4 ;; pret (ot, x, maxbr, avgbr).
+
+(* DecodeDecoderConfigDescriptor after tag and size field *)
+Definition dec_dcd (dd : Z -> list N -> dres) (k : nat) (nb size : N) (raw : list N) (r : list N) : dres :=
+  match rd_dcd_fields r with
+  | Ok ((ot, x, maxbr, avgbr), r1) =>
+      let left := (int64 size - 13)%Z in
+      if (left =? 0)%Z then DOk (DDcd nb ot (x / 16777216) (x mod 16777216) maxbr avgbr [] []) [raw] r1
+      else match dd left r1 with
+           | DOk d1 rs1 r2 =>
+               match dec_loop dd k (int64 size) (13 + (lenN r1 - lenN r2)) r2 with
+               | LDone ds rs r3 => DOk (DDcd nb ot (x / 16777216) (x mod 16777216) maxbr avgbr (d1 :: ds) []) (raw :: rs1 ++ rs) r3
+               | LUnknown ds rs u r3 => DOk (DDcd nb ot (x / 16777216) (x mod 16777216) maxbr avgbr (d1 :: ds) u) (raw :: rs1 ++ rs) r3
+               | LTooFar => DSoft | LHard => DHard | LFuel => DFuel
+               end
+           | DSoft => DSoft | DHard => DHard | DFuel => DFuel
+           end
+  | _ => DHard
+  end.
+
+(* sr.ReadBytes(int(n)) for a uint64 n: a negative int sets the reader's error *)
+Definition rd_bytes64 (n : N) (bs : list N) : option (list N * list N) :=
+  if 9223372036854775808 <=? n then None
+  else match rdB n bs with Ok (x, r) => Some (x, r) | _ => None end.
+
+(* DecodeDescriptor(sr, maxNrBytes); the fuel bounds the nesting and the loops *)
+Fixpoint dec_desc (fuel : nat) (maxNr : Z) (bs : list N) : dres :=
+  match fuel with
+  | O => DFuel
+  | S fu =>
+      if (maxNr <? 2)%Z then DSoft else
+      match bs with
+      | [] => DHard
+      | tag :: t =>
+          if tag =? 3 then DSoft                                   (* "use DecodeESDescriptor instead" *)
+          else match sz_loop t 0 with
+               | Ok ((nb, size, raw), r) =>
+                   (* exceedsMaxNrBytes: 1+uint64(sizeFieldSizeMinus1)+1+size > uint64(maxNrBytes) *)
+                   if Z.to_N maxNr <? u64 (2 + sfs_of nb + size) then DSoft
+                   else if tag =? 4 then dec_dcd (dec_desc fu) fu nb size raw r
+                   else if tag =? 5 then
+                     match rd_bytes64 size r with Some (dc, r') => DOk (DDsi nb dc) [raw] r' | None => DHard end
+                   else if tag =? 6 then
+                     match r with
+                     | [] => DHard
+                     | cv :: r1 =>
+                         if 1 <? size then
+                           match rd_bytes64 (size - 1) r1 with Some (more, r') => DOk (DSlc nb cv more) [raw] r' | None => DHard end
+                         else DOk (DSlc nb cv []) [raw] r1
+                     end
+                   else match rd_bytes64 size r with Some (data, r') => DOk (DRaw tag nb data) [raw] r' | None => DHard end
+               | _ => DHard
+               end
+      end
+  end.
+
+(* Size() / SizeSize() of the descriptors *)
+Fixpoint desc_size_of (d : desc) : N :=
+  match d with
+  | DDcd _ _ _ _ _ _ cs u =>
+      13 + (fix sum (l : list desc) : N :=
+              match l with [] => 0 | c :: r => (1 + sfs_of (match c with DDcd nb _ _ _ _ _ _ _ => nb | DDsi nb _ => nb | DSlc nb _ _ => nb | DRaw _ nb _ => nb end) + 1 + desc_size_of c) + sum r end) cs
+      + lenN u
+  | DDsi _ dc => lenN dc
+  | DSlc _ _ more => 1 + lenN more
+  | DRaw _ _ data => lenN data
+  end.
+Definition desc_nb (d : desc) : N :=
+  match d with DDcd nb _ _ _ _ _ _ _ => nb | DDsi nb _ => nb | DSlc nb _ _ => nb | DRaw _ nb _ => nb end.
+Definition desc_sizesize (d : desc) : N := 1 + sfs_of (desc_nb d) + 1 + desc_size_of d.
+Definition sizes_sum (l : list desc) : N := sumN (map desc_sizesize l).
+
+(* EncodeSW of a descriptor; the size fields are taken from the stream of chunks r (captured ones, or dflt_desc) *)
+Fixpoint enc_desc (d : desc) (r : rsvT) : list N * rsvT :=
+  match d with
+  | DDcd _ ot st buf maxbr avgbr cs u =>
+      let '(body, r') :=
+        (fix go (l : list desc) (r : rsvT) : list N * rsvT :=
+           match l with
+           | [] => ([], r)
+           | c :: t => let '(x, r1) := enc_desc c r in let '(y, r2) := go t r1 in (x ++ y, r2)
+           end) cs (tl r) in
+      (* streamTypeAndBufferSizeDB := (uint32(d.StreamType) << 24) | d.BufferSizeDB *)
+      ([4] ++ hd [] r ++ be_enc 1 ot ++ be_enc 4 (N.lor (u32 (st * 16777216)) buf) ++ be_enc 4 maxbr ++ be_enc 4 avgbr ++
+       body ++ u, r')
+  | DDsi _ dc => ([5] ++ hd [] r ++ dc, tl r)
+  | DSlc _ cv more => ([6] ++ hd [] r ++ [cv] ++ more, tl r)
+  | DRaw tag _ data => ([tag] ++ hd [] r ++ data, tl r)
+  end.
+Fixpoint enc_descs (l : list desc) (r : rsvT) : list N * rsvT :=
+  match l with
+  | [] => ([], r)
+  | c :: t => let '(x, r1) := enc_desc c r in let '(y, r2) := enc_descs t r1 in (x ++ y, r2)
+  end.
+(* the size fields as the encoder writes them, in the order enc_desc consumes them *)
+Fixpoint dflt_desc (d : desc) : rsvT :=
+  wr_size (desc_size_of d) (N.to_nat (sfs_of (desc_nb d))) ::
+  match d with
+  | DDcd _ _ _ _ _ _ cs _ => (fix go (l : list desc) : rsvT := match l with [] => [] | c :: t => dflt_desc c ++ go t end) cs
+  | _ => []
+  end.
+Definition dflt_descs (l : list desc) : rsvT := flat_map dflt_desc l.
+Fixpoint nounk (d : desc) : bool :=
+  match d with
+  | DDcd _ _ _ _ _ _ cs u => (lenN u =? 0) && (fix go (l : list desc) : bool := match l with [] => true | c :: t => nounk c && go t end) cs
+  | _ => true
+  end.
+
+Definition es_opt_size (fl : N) (url : list N) : N :=
+  (if fl / 128 =? 1 then 2 else 0) + (if (fl / 64) mod 2 =? 1 then 1 + lenN url else 0) + (if (fl / 32) mod 2 =? 1 then 2 else 0).
+Definition es_size_of (fl : N) (url : list N) (dcd : desc) (cs : list desc) (u : list N) : N :=
+  3 + es_opt_size fl url + desc_sizesize dcd + sizes_sum cs + lenN u.
+Definition esds_dflt (nb fl : N) (url : list N) (dcd : desc) (cs : list desc) (u : list N) : rsvT :=
+  wr_size (es_size_of fl url dcd cs u) (N.to_nat (sfs_of nb)) :: dflt_desc dcd ++ dflt_descs cs.
+Fixpoint rsv_eqb0 (r d : rsvT) : bool :=
+  match r, d with
+  | [], [] => true
+  | c :: r', e :: d' => bytes_eqb c e && rsv_eqb0 r' d'
+  | _, _ => false
+  end.
+Definition esds_canon (rsv : rsvT) (nb fl : N) (url : list N) (dcd : desc) (cs : list desc) (u : list N) : bool :=
+  rsv_eqb0 rsv (esds_dflt nb fl url dcd cs u) && nounk dcd && forallb nounk cs && (lenN u =? 0).
+
+Definition rd_es_fields : parser (N * N * N * list N * N) :=
+  pdo esid <- rd 2 ;; pdo fl <- rd 1 ;;
+  pdo dep <- rd_if (fl / 128 =? 1) 2 ;;
+  pdo url <- (if (fl / 64) mod 2 =? 1 then (pdo n <- rd 1 ;; rdB n) else pret []) ;;
+  pdo ocr <- rd_if ((fl / 32) mod 2 =? 1) 2 ;;
+  pret (esid, fl, dep, url, ocr).
+
+(* DecodeEsdsSR: versionAndFlags, DecodeESDescriptor (descSize is not used by the Go code), sr.AccError().
+   Fuel: the announced box size bounds nesting depth and loop counts of everything inside the box. *)
+Definition dec_esds (h : hdr) : parser (leaf * rsvT) :=
+  pdo vf <- rd 4 ;;
+  fun bs =>
+    let F := S (N.to_nat (h_size h)) in
+    let dd := dec_desc F in
+    match bs with
+    | [] => Err
+    | tag :: t =>
+        if negb (tag =? 3) then Err else
+        match sz_loop t 0 with
+        | Ok ((nb, size, raw), r) =>
+            match rd_es_fields r with
+            | Ok ((esid, fl, dep, url, ocr), r1) =>
+                let mk dcd cs u rsv := LEsds (vf_version vf) (vf_flags vf) nb esid fl dep url ocr dcd cs u
+                                             (esds_canon rsv nb fl url dcd cs u) in
+                match dd (int64 size - Z.of_N (lenN r - lenN r1))%Z r1 with
+                | DOk (DDcd a b c d0 e0 f0 g0 h0) rs1 r2 =>
+                    let dcd := DDcd a b c d0 e0 f0 g0 h0 in
+                    let left2 := (int64 size - Z.of_N (lenN r - lenN r2))%Z in
+                    match dd left2 r2 with
+                    | DOk d2 rs2 r3 =>
+                        match dec_loop dd F (int64 size) (lenN r - lenN r3) r3 with
+                        | LDone ds rs r4 =>
+                            let rsv := raw :: rs1 ++ rs2 ++ rs in
+                            if negb (size =? es_size_of fl url dcd (d2 :: ds) []) then Err
+                            else Ok ((mk dcd (d2 :: ds) [] rsv, rsv), r4)
+                        | LUnknown ds rs u r4 =>
+                            let rsv := raw :: rs1 ++ rs2 ++ rs in Ok ((mk dcd (d2 :: ds) u rsv, rsv), r4)
+                        | LTooFar => Err | LHard => Err | LFuel => OutOfFuel
+                        end
+                    | DSoft =>
+                        if (left2 <? 0)%Z then Err
+                        else match rdB (Z.to_N left2) r2 with
+                             | Ok (u, r3) => let rsv := raw :: rs1 in Ok ((mk dcd [] u rsv, rsv), r3)
+                             | _ => Err
+                             end
+                    | DHard => Err | DFuel => OutOfFuel
+                    end
+                | DOk _ _ _ => Err                    (* "expected DecoderConfigDescriptor" *)
+                | DSoft => Err | DHard => Err | DFuel => OutOfFuel
+                end
+            | _ => Err
+            end
+        | _ => Err
+        end
+    end.
+
 (* ---------------------------------------------------------------- encoders (bodies) *)
 Definition ok_bytes (l : list N) : res (list N) := Ok l.
 
@@ -938,6 +1193,13 @@ Definition body_leaf (l : leaf) (r : rsvT) : res (list N) :=
           be_enc 1 (lenN arrays) ++ flat_map wr_narr arrays ++ chunk 5 r)
   | LSubs v f es =>
       Ok (be_enc 4 (vf_join v f) ++ be_enc 4 (lenN es) ++ flat_map (wr_subs_entry (subs_w v)) es)
+  | LEsds v f nb esid fl dep url ocr dcd cs u _ =>
+      let '(x, r1) := enc_desc dcd (tl r) in
+      let '(y, _) := enc_descs cs r1 in
+      Ok (be_enc 4 (vf_join v f) ++ [3] ++ hd [] r ++ be_enc 2 esid ++ be_enc 1 fl ++
+          (if fl / 128 =? 1 then be_enc 2 dep else []) ++
+          (if (fl / 64) mod 2 =? 1 then be_enc 1 (lenN url) ++ url else []) ++
+          (if (fl / 32) mod 2 =? 1 then be_enc 2 ocr else []) ++ x ++ y ++ u)
   end.
 
 (* WriteZeroBytes(int(31 - compressorNameLength)) with compressorNameLength := byte(len(name)), in byte arithmetic *)
@@ -961,6 +1223,7 @@ Definition dflt_rsv (l : leaf) : rsvT :=
   | LColr _ _ _ _ _ _ => [[0]]
   | LElng _ _ _ lang => [lang ++ [0]]
   | LHvcC _ _ _ _ _ _ _ _ _ _ _ _ _ _ _ _ => [[15]; [63]; [63]; [31]; [31]; []]
+  | LEsds _ _ nb _ fl _ url _ dcd cs u _ => esds_dflt nb fl url dcd cs u
   | _ => []
   end.
 
@@ -975,6 +1238,8 @@ Definition rsv_dc (l : leaf) : list bool :=
   | LAvcC _ _ _ _ _ _ _ _ _ _ => [true; true; true; true; true; false]
   | LElng _ _ _ _ => [false]
   | LHvcC _ _ _ _ _ _ _ _ _ _ _ _ _ _ _ _ => [true; true; true; true; true; false]
+  (* the size fields of the descriptors are not reserved bits *)
+  | LEsds _ _ nb _ fl _ url _ dcd cs u _ => map (fun _ => false) (esds_dflt nb fl url dcd cs u)
   | _ => []
   end.
 
@@ -1044,6 +1309,7 @@ Definition size_leaf (l : leaf) : N :=
   | LHvcC _ _ _ _ _ _ _ _ _ _ _ _ _ _ _ arrays =>
       8 + 23 + sumN (map (fun a => 3 + sumN (map (fun x => 2 + lenN x) (snd a))) arrays)
   | LSubs v _ es => 16 + sumN (map (fun e => 6 + lenN (snd e) * (if v =? 1 then 10 else 8)) es)
+  | LEsds _ _ nb _ fl _ url _ dcd cs u _ => 8 + 4 + (1 + sfs_of nb + 1 + es_size_of fl url dcd cs u)
   end.
 
 (* header written by the leaf encoder *)
@@ -1075,7 +1341,7 @@ Definition leaf_table : list (list N * (hdr -> parser (leaf * rsvT))) :=
     (n_url, dec_url); (n_avcC, dec_avcC); (n_btrt, dec_btrt); (n_pasp, dec_pasp); (n_colr, dec_colr);
     (n_clap, dec_clap); (n_schm, dec_schm); (n_cslg, dec_cslg);
     (n_senc, dec_senc); (n_emsg, dec_emsg); (n_elng, dec_elng); (n_kind, dec_kind);
-    (n_hvcC, dec_hvcC); (n_subs, dec_subs) ].
+    (n_hvcC, dec_hvcC); (n_subs, dec_subs); (n_esds, dec_esds) ].
 
 (* boxes with a field prefix followed by child boxes.  PStrict off: DecodeContainerChildrenSR(hdr, startPos+off,
    startPos+hdr.Size) (sizes cross-checked against the bytes consumed); PEntry start: the sample entry loop
@@ -1336,6 +1602,9 @@ Definition leaf_guard (l : leaf) : bool :=
   | LTrun _ f doff _ _ => negb (has f 1 && (doff =? 0))
   (* a senc with sample_count 0 keeps its size (readBoxSize) but its data is not written back *)
   | LSenc _ _ raw _ np => np || (lenN raw =? 0)
+  (* an esds whose size fields are not in the encoder's form (e.g. an SLConfigDescriptor announcing 0 bytes) or that
+     kept UnknownData *)
+  | LEsds _ _ _ _ _ _ _ _ _ _ _ canon => canon
   | _ => true
   end.
 
